@@ -5,11 +5,11 @@
 
   (S) statements hold for ANY scalar type with arbitrary operations (so also for f64);
   (E) statements identify the ordered sums with the textbook definition over a semiring.
-  Proved so far: storage lemmas, get_row/get_col, set_col (incl. the range check against the
-  number of columns and the frame condition), matrix·vector, matrix·matrix for every
-  conformable shape.  The remaining operations (transpose, fills, resize, delete_row, swap_rows,
-  elementwise ops, histories) are covered by the exact correspondence + reference-model oracle
-  only; see obligations.json `not_proved`.
+  Proved in this file: storage lemmas, set_col (incl. the range check against the number of columns
+  and the frame condition), matrix·vector, matrix·matrix for every conformable shape.  The remaining
+  operations (transpose, fills, resize, delete_row, swap_rows, elementwise ops) and histories are in
+  C03M; norms in C03N; accessors, Σ-forms, sdiv and the extended history refinement in C03G; rounding
+  in C03F.
 -/
 import Ohsl.Lemmas.MatSpec
 import Ohsl.Lemmas.Alg
